@@ -617,6 +617,92 @@ pub struct BfsResult {
     pub levels: Vec<u64>,
 }
 
+/// The same search with a frontier of *paths* instead of states: a state is rebuilt by replaying its
+/// path from the start state whenever it is expanded. Memory is a few bytes per frontier entry instead
+/// of a whole real world; the price is one replay (depth steps) per expanded state.
+pub fn bfs_lowmem<M: Canon>(m: &M, w: &mut M::W, init: usize, max_depth: usize, max_states: usize, wall: Duration) -> BfsResult {
+    let t0 = Instant::now();
+    let mut seen: HashSet<u128> = HashSet::new();
+    let s0 = m.init(w, init);
+    seen.insert(fp128(&m.canon(&s0)));
+    let mut frontier: Vec<Vec<u16>> = vec![Vec::new()];
+    let mut res = BfsResult {
+        states: 1,
+        transitions: 0,
+        depth_reached: 0,
+        frontier_empty: false,
+        cap_hit: false,
+        fails: Vec::new(),
+        fail_counts: HashMap::new(),
+        samples: Vec::new(),
+        wall_s: 0.0,
+        levels: vec![1],
+    };
+    let ne = m.n_events();
+    assert!(ne < 65536);
+    'outer: for depth in 0..max_depth {
+        let mut next: Vec<Vec<u16>> = Vec::new();
+        for path in frontier.iter() {
+            // rebuild the state (every step of the path succeeded when it was first taken)
+            let mut s = s0.clone();
+            let mut ok = true;
+            for &e in path.iter() {
+                if do_step(m, w, &mut s, e as usize).is_err() {
+                    ok = false;
+                    break;
+                }
+            }
+            if !ok {
+                continue;
+            }
+            for e in 0..ne {
+                if !m.enabled(&s, e) {
+                    continue;
+                }
+                let mut s2 = s.clone();
+                res.transitions += 1;
+                match do_step(m, w, &mut s2, e) {
+                    Ok(()) => {
+                        let k = fp128(&m.canon(&s2));
+                        if seen.insert(k) {
+                            res.states += 1;
+                            let mut p2 = path.clone();
+                            p2.push(e as u16);
+                            if res.samples.len() < 2 && p2.len() >= 3 {
+                                res.samples.push((init, p2.iter().map(|&x| x as usize).collect()));
+                            }
+                            next.push(p2);
+                        }
+                    }
+                    Err(f) => {
+                        *res.fail_counts.entry(f.key.clone()).or_insert(0) += 1;
+                        let kept = res.fails.iter().filter(|x| x.2.key == f.key).count();
+                        if kept < 3 {
+                            let mut p2: Vec<usize> = path.iter().map(|&x| x as usize).collect();
+                            p2.push(e);
+                            res.fails.push((init, p2, f));
+                        }
+                    }
+                }
+            }
+            if seen.len() >= max_states || t0.elapsed() > wall {
+                res.cap_hit = true;
+                res.depth_reached = depth;
+                break 'outer;
+            }
+        }
+        res.depth_reached = depth + 1;
+        res.levels.push(next.len() as u64);
+        if next.is_empty() {
+            res.frontier_empty = true;
+            break;
+        }
+        frontier = next;
+    }
+    res.wall_s = t0.elapsed().as_secs_f64();
+    res
+}
+
 /// Single-threaded BFS from one initial state (parallelism is across
 /// configurations, by the caller). Keys are 128-bit fingerprints of the
 /// canonical key bytes.
